@@ -59,6 +59,7 @@ static unsigned fm_reflect_pct = 30;
 static unsigned fm_lag = 3;         /* collectives: polls before the peer "enters" (0..lag) */
 static unsigned fm_spread = 16;     /* new events: tq in [floor, floor+spread] */
 static unsigned fm_cancel_span = 400;
+static unsigned fm_late_burst = 6;   /* cancellations fired when this rank announces termination */
 static unsigned fm_max_age = 40;    /* a message in flight is force-delivered after that many probes */
 static unsigned fm_ntypes = 2;
 #define fm_first_lp ((uint64_t)lid_node_first)
@@ -166,8 +167,7 @@ static void fm_peer_act(void)
 {
 	if(fm_flip_pending && !vrng_below(3))
 		fm_flip();
-	if(fm_stopped)
-		return;
+	/* a stopped peer sends no new autonomous events (budget 0) but may still cancel what is legally cancellable */
 	unsigned k = (unsigned)vrng_below(8);
 	if(k >= 3)
 		return;
@@ -213,6 +213,17 @@ static void fm_peer_receive(const void *buf, int size)
 		if(c == MSG_CTRL_GVT_START) {
 			fm_round_active = 1;
 			fm_flip_pending = 1;
+		}
+		if(c == MSG_CTRL_TERMINATION && fm_late_burst) {
+			/* this rank is about to leave its worker loops: a last burst of legal cancellations, so that anti-messages (often
+			 * of another colour than their events) are in flight during shutdown and reach the drain code */
+			unsigned left = fm_late_burst;
+			for(unsigned i = fm_sent_n; i-- > 0 && left;)
+				if(!fm_sent[i].cancelled && fm_sent[i].cause < 0 && fm_sent[i].send_tq >= fm_commit &&
+				    fm_sent[i].send_tq >= fm_last_gvt) {
+					fm_send_anti(i);
+					left--;
+				}
 		}
 		return;
 	}
@@ -390,8 +401,10 @@ int MPI_Test(MPI_Request *req, int *flag, MPI_Status *st)
 		 * time stamps of what it sent in the new colour; sometimes lower (never below the last GVT) */
 		uint64_t ours = fm_dbl_tq(fm_mn_ours);
 		uint64_t chosen = fm_floor < fm_newmin ? fm_floor : fm_newmin;
-		if(fm_stopped && fm_newmin >= FM_TQ_INF && !vrng_below(2))
-			chosen = FM_TQ_INF; /* idle peer */
+		if(fm_stopped && fm_newmin >= FM_TQ_INF && !vrng_below(2)) {
+			chosen = FM_TQ_INF; /* idle peer: gives up the right to cancel anything */
+			fm_commit = FM_TQ_INF;
+		}
 		else if(!vrng_below(3)) {
 			uint64_t d = vrng_below(6);
 			chosen = chosen >= fm_last_gvt + d ? chosen - d : fm_last_gvt;
